@@ -10,7 +10,7 @@ EXPLANATION = (
     "one self.id(), never computed, none allocated and dropped); the three-way explicit/found/fresh decision table of every "
     "implicit-type method plus dedup_insert_type and is_type_identical. Counter overflow after 2^32 allocations and caller-chosen "
     "colliding explicit ids are outside the claim.")
-EXHAUSTIVE = True
+EXHAUSTIVE = False     # the abstract inputs are a stated finite scope, not the whole input space
 
 BLD = "rspirv::dr::build"
 
